@@ -2,7 +2,7 @@
 //! Function generator, byte mutators, compile / load / run routes replicated from the CLI
 //! (cli/src/cli/commands/{compile,run}.rs) on top of the same public entry points.
 #![allow(dead_code)]
-use aelys_bytecode::asm::{assemble, deserialize, deserialize_with_manifest, disassemble_to_string, serialize, BinaryError};
+use aelys_bytecode::asm::{assemble, deserialize, deserialize_with_manifest, disassemble_to_string, serialize, try_serialize, BinaryError};
 use aelys_bytecode::{Function, GcRef, GlobalLayout, Heap, ObjectKind, UpvalueDescriptor, Value};
 use hxlib::Rng;
 
@@ -99,6 +99,15 @@ pub fn err_term(e: &BinaryError) -> String {
     }
 }
 
+/// Error of the validating writer (try_serialize) as a model term of type `err_w`.
+pub fn werr_term(e: &BinaryError) -> String {
+    match e {
+        BinaryError::InvalidNestedFunctionIndex { .. } => "WNestedIdx".into(),
+        BinaryError::LimitExceeded { .. } => err_term(e).replace("ELimit", "WLimit"),
+        other => format!("WOther_{}", other.to_string().split_whitespace().next().unwrap_or("")),
+    }
+}
+
 /// Result of the real `deserialize` as a model term of type `result`.
 pub fn read_result_term(bytes: &[u8]) -> String {
     let b = bytes.to_vec();
@@ -191,7 +200,9 @@ pub fn gen_func(rng: &mut Rng, depth: u32, heap: &mut Heap) -> Function {
             2 => Value::int(if rng.chance(1, 2) { *rng.pick(INTS) } else { rng.range_i64(-140737488355328, 140737488355327) }),
             3 => Value::float(f64::from_bits(if rng.chance(1, 2) { *rng.pick(FLOATS) } else { rng.next_u64() })),
             4 | 5 => { let s = rand_string(rng); Value::ptr(heap.intern_string(&s).index()) }
-            6 => if n_nested > 0 { Value::nested_fn_marker(rng.below(n_nested as u64) as usize) } else { Value::null() },
+            6 => if n_nested > 0 && !rng.chance(1, 12) { Value::nested_fn_marker(rng.below(n_nested as u64) as usize) }
+                 else if rng.chance(1, 3) { Value::nested_fn_marker(n_nested + rng.below(3) as usize) }     // marker without its function
+                 else { Value::null() },
             7 => Value::ptr(100_000 + rng.below(1 << 40) as usize),      // dangling pointer: stays raw
             _ => Value::ptr(rng.below(4) as usize),                       // small pointer: may alias a string
         };
@@ -205,7 +216,8 @@ pub fn gen_func(rng: &mut Rng, depth: u32, heap: &mut Heap) -> Function {
         let g = gen_func(rng, depth + 1, heap);
         f.nested_functions.push(g);
     }
-    for _ in 0..rng.below(4) {
+    let n_up = if rng.chance(1, 40) { 255 + rng.below(4) } else { rng.below(4) };     // around the 256 limit
+    for _ in 0..n_up {
         f.upvalue_descriptors.push(UpvalueDescriptor { is_local: rng.chance(1, 2), index: rng.below(256) as u8 });
     }
     for _ in 0..rng.below(5) {
